@@ -39,6 +39,23 @@ func (k Keeper) RandomIndex(seed *big.Int, total, count int) []int {
 		return idx
 	}
 	for count > 0 {
+		if seed.Sign() == 0 {
+			// the seed's digits are used up (or the seed is empty, e.g. a simulation right
+			// after a restart): take the lowest unused indices instead of spinning forever
+			for i := 0; i < total && count > 0; i++ {
+				used := false
+				for _, v := range idx {
+					if v == i {
+						used = true
+					}
+				}
+				if !used {
+					idx = append(idx, i)
+					count -= 1
+				}
+			}
+			break
+		}
 		rs := int(new(big.Int).Mod(seed, big.NewInt(int64(mod))).Int64()) % total
 		seed = new(big.Int).Div(seed, big.NewInt(10))
 		duplicate := false
